@@ -233,19 +233,19 @@ pub fn apply_fn_model(name: &str, m: &FnModel, arg: &RV) -> Result<RV, RErr> {
         FnModel::Fail => Err(user(format!("fail {}", arg.to_value()))),
         FnModel::IntMap => match arg {
             RV::Int(k) => Ok(RV::Int(k.rem_euclid(5) - 2)),
-            _ => Err(user(format!("{}: not an int", name))),
+            _ => Err(user("model function: not an int".to_string())),
         },
         FnModel::BoolMap => match arg {
             RV::Int(k) => Ok(RV::Bool(k.rem_euclid(2) == 0)),
-            _ => Err(user(format!("{}: not an int", name))),
+            _ => Err(user("model function: not an int".to_string())),
         },
         FnModel::StrMap => match arg {
             RV::Int(k) => Ok(RV::Str(format!("s{}", k))),
-            _ => Err(user(format!("{}: not an int", name))),
+            _ => Err(user("model function: not an int".to_string())),
         },
         FnModel::FloatMap => match arg {
             RV::Int(k) => Ok(RV::Float(*k as f64 / 2.0)),
-            _ => Err(user(format!("{}: not an int", name))),
+            _ => Err(user("model function: not an int".to_string())),
         },
     }
 }
